@@ -363,6 +363,7 @@ var specC05 = vstat.Spec[c05Case]{
 	Assumptions: []string{"QUIC handshakes over the in-memory switch complete within the waits; a dial against an impostor is given 0.9 s before it is cancelled"},
 	Gen:         genC05,
 	Check:       checkC05,
+	Inflight:    true,
 }
 
 var specC03Dial = vstat.Spec[c05Case]{
@@ -372,6 +373,7 @@ var specC03Dial = vstat.Spec[c05Case]{
 	Assumptions: []string{"a refused session is torn down within 20 ms of the dial returning"},
 	Gen:         genC05,
 	Check:       checkC03Dial,
+	Inflight:    true,
 }
 
 func TestC03Dial(t *testing.T)       { vstat.Check(t, specC03Dial) }
